@@ -19,14 +19,14 @@ def run(ctx):
     qs = []
     names = {0: 'fields', 1: 'via-primitive', 2: 'via-primitive-typed', 3: 'kernel-argument'}
     # constructor fields: all 19 entry points in one query
-    qs.append(Query('fields', L, hs, ['MODE=0'], unwind=12, timeout=600, desc='constructor fields: all 19 scalar constructors, all values', backend='cadical'))
+    qs.append(Query('fields', L, hs, ['MODE=0'], unwind=12, timeout=1500, desc='constructor fields: all 19 scalar constructors, all values', backend='cadical'))
     # occaType -> occa::primitive -> occaType: the numeric constructors (occa converts occaBool through its own branch,
     # occa::c::inferJson, never through occa::c::primitive)
     for mode in (1, 2):
-        qs.append(Query(names[mode], L, hs, ['MODE=%d' % mode, 'SKIP_BOOL'], unwind=12, timeout=600, desc='%s: the 18 numeric constructors, all values' % names[mode], backend='cadical'))
+        qs.append(Query(names[mode], L, hs, ['MODE=%d' % mode, 'SKIP_BOOL'], unwind=12, timeout=1500, desc='%s: the 18 numeric constructors, all values' % names[mode], backend='cadical'))
     # kernel-argument conversion: one query per entry point (the selector is concrete: std::vector growth makes the joint query run out of memory)
     for k in range(19):
-        qs.append(Query('kernel-argument-k%d' % k, L, hs, ['MODE=3', 'KFIX=%d' % k], unwind=12, timeout=600, desc='occaType -> occa::kernelArg for entry point %d, all values' % k, backend='cadical'))
+        qs.append(Query('kernel-argument-k%d' % k, L, hs, ['MODE=3', 'KFIX=%d' % k], unwind=12, timeout=1500, desc='occaType -> occa::kernelArg for entry point %d, all values' % k, backend='cadical'))
     if ctx.only:
         qs = [q for q in qs if re.search(ctx.only, q.name)]
     vec = [dict(k=5, bits=0xfffffffe), dict(k=0, bits=3), dict(k=10, bits=0x400921fb54442d18), dict(k=13, bits=0x18000), dict(k=18, bits=(1 << 64) - 1)]
